@@ -180,7 +180,7 @@ def run_restest(ctx, n, d):
         buf = io.StringIO()
         try:
             with contextlib.redirect_stdout(buf), contextlib.redirect_stderr(buf):
-                rc = rt.main(['-i', orig, '-o', os.path.join(t, 'out'), '-c', os.path.join(t, 'cfg'), '--silent', '-f'])
+                rc = rt.main(['-i', orig, '-o', os.path.join(t, 'out'), '-c', os.path.join(t, 'cfg'), '--silent', '-f'] + (['-p'] if k % 4 == 3 else []))   # -p: repair stages read the tampered tree (one stage here: same result)
         except BaseException as e:
             rc = 'EXC ' + repr(e)
         # files missing from the repair output are copied from the tampered tree (original + "Q")
